@@ -120,6 +120,19 @@ def compare(p, old_kind, new_kind, root_is_term):
         if a != b:
             differs = (cn, a, b)
             break
+    if differs is None and not root_is_term and hasattr(res, "select") and getattr(res, "_selects", None) and not getattr(res, "_insert_table", None):
+        # "the same construction carried out with new from the start" also continues the same way: one more select() on both
+        try:
+            zz = new.field("zz9")
+            res2, exp2 = res.select(zz), expect.select(zz)
+            for cn in CTXS:
+                ctx = prog.sql_context(cn)
+                a, b = snap._try(lambda: res2.get_sql(ctx)), snap._try(lambda: exp2.get_sql(ctx))
+                if a != b:
+                    out.append((mksig("continuation_differs", _kind(p), _first_clause_diff(a, b)), "under %s: select(new.zz9) after replace_table gives %r, on the construction with the new table %r" % (cn, a, b)))
+                    break
+        except Exception as e:
+            out.append((mksig("continuation_raises", type(e).__name__), "select() on the result of replace_table raised %r" % (e,)))
     if differs and left:
         path, holder = left[0]
         out.append((mksig("kept_old", top_attr(path) if not root_is_term else "term", _base(holder or cname)),
